@@ -235,6 +235,242 @@ pub fn run_io(case: &Case, dir: PathBuf) -> Outcome {
     o
 }
 
+// ------------------------------------------------------------------- failed keyspace deletion
+
+/// C10 / C12: `delete_keyspace` hits an I/O error while it writes the deletion into the meta
+/// keyspace. The call reports the error and NOTHING has changed: the name still exists, handles
+/// keep working, opening the name returns the same keyspace, its unflushed writes keep their
+/// sealed journal, and all of that is still so after a reopen.
+pub fn gen_delete_fault(tier: Tier, seed: u64, prop: &str) -> Case {
+    let mut r = Rng::stream(seed, "workload");
+    let n_keys = r.range(2, 4) as usize;
+    let mut g = G::new(&mut r, 2, n_keys, DbKind::Plain, false);
+    g.cfg.check_every = 0;
+    g.cfg.rotation_threshold = *g.r.pick(&[512u64, 1024]);
+    g.cfg.journal_lz4 = false;
+    for o in &mut g.cfg.opts {
+        o.max_memtable = 0;
+        o.blob = None;
+    }
+    let victim: u8 = g.r.below(2) as u8;
+    let other = 1 - victim;
+    let mut program = g.create_initial(2);
+    // the victim gets unflushed writes, the other keyspace fills and flushes so that a sealed
+    // journal holding the victim's writes exists
+    for _ in 0..g.r.range(1, 3) {
+        let v = g.val_sized(8, true);
+        program.push(Op::Insert { ks: victim, key: g.key(), val: v });
+    }
+    for _ in 0..g.r.range(1, 2) {
+        let v = g.val_sized(700, false);
+        program.push(Op::Insert { ks: other, key: g.key(), val: v });
+        program.push(Op::Rotate { ks: other });
+        program.push(Op::WorkerStep);
+    }
+    program.push(Op::DeleteKs { ks: victim });
+    program.push(Op::Check);
+    // life goes on (if the deletion failed the victim is still there; if not, these are skipped)
+    let v = g.val_sized(8, true);
+    program.push(Op::Insert { ks: victim, key: g.key(), val: v });
+    program.push(Op::CreateKs { ks: victim });
+    for _ in 0..g.r.range(1, 2) {
+        let v = g.val_sized(700, false);
+        program.push(Op::Insert { ks: other, key: g.key(), val: v });
+        program.push(Op::Rotate { ks: other });
+        program.push(Op::WorkerStep);
+        program.push(Op::WorkerStep);
+    }
+    program.push(Op::Check);
+    let _ = tier;
+    Case {
+        prop: prop.into(),
+        seed,
+        engine: Engine::Seq,
+        cfg: g.cfg.clone(),
+        program,
+        threads: vec![],
+        schedule: None,
+        fault: Fault::Io { kind: if g.r.chance(1, 2) { IoKind::Eio } else { IoKind::Enospc }, target: IoTarget::MetaDuringDelete, n: None, persistent: false },
+        class: "delete-keyspace-io-fault".into(),
+    }
+}
+
+fn run_delete_fault_once(case: &Case, dir: &Path, fault: Fault) -> IoRun {
+    let live = dir.join("live");
+    let scratch = dir.join("scratch");
+    crate::interpose::bypass(|| std::fs::create_dir_all(&scratch).ok());
+    let mon: SharedMon = Mon::new(&live, &scratch, fault, case.seed);
+    faults::install(&mon);
+    let mut ex = Exec::new(&case.cfg, live.clone());
+    ex.tolerate_errors = true;
+    let mut violation = None;
+    let mut stats = crate::exec::Stats::default();
+    let mut delete_failed = false;
+    let mut victim: Option<KsIdx> = None;
+    if let Err(v) = ex.open() {
+        violation = Some(v);
+    } else {
+        for (i, op) in case.program.iter().enumerate() {
+            // a keyspace that was deleted successfully: the rest of the program is about the
+            // failed case only (re-creating the name would start a new incarnation)
+            if matches!(op, Op::CreateKs { ks } | Op::Insert { ks, .. } if i > 2 && !ex.model.ks.contains_key(ks)) {
+                continue;
+            }
+            mon.lock().unwrap().enabled = true;
+            let r = ex.step(i, op);
+            mon.lock().unwrap().enabled = false;
+            match r {
+                Err(v) => {
+                    violation = Some(v);
+                    break;
+                }
+                Ok(info) => {
+                    if let Some(e) = info.failed {
+                        let fired = mon.lock().unwrap().io.fired_at_call.is_some();
+                        if let (Op::DeleteKs { ks }, true, false) = (op, fired, delete_failed) {
+                            delete_failed = true;
+                            victim = Some(*ks);
+                            stats.inc("delete_keyspace_failed_by_fault");
+                            // The properties do not say whether a deletion that reports an I/O
+                            // error has happened or not - but it is one or the other, for
+                            // everybody: either the name still exists and is fully usable with
+                            // its content, or it is gone.
+                            let name = case.cfg.names[*ks as usize].clone();
+                            let inst = ex.inst.as_mut().unwrap();
+                            if inst.db.keyspace_exists(&name) {
+                                let old_id = inst.k(*ks).map(|k| k.id());
+                                let o = case.cfg.opts[*ks as usize].clone();
+                                match inst.db.keyspace(&name, move || crate::inst::make_opts(&o)) {
+                                    Ok(k2) => {
+                                        if Some(k2.id()) != old_id {
+                                            violation = Some(Violation::new("failed-delete-inconsistent", format!("after delete_keyspace({name:?}) failed with {e}, opening the name yields another keyspace (id {} instead of {old_id:?})", k2.id())));
+                                            break;
+                                        }
+                                        let probe = k2.insert("\u{7f}probe", "x").and_then(|()| k2.remove("\u{7f}probe"));
+                                        if let Err(pe) = probe {
+                                            violation = Some(Violation::new("failed-delete-inconsistent", format!("after delete_keyspace({name:?}) failed with {e} the name still exists, but the keyspace refuses writes: {pe:?}")));
+                                            break;
+                                        }
+                                    }
+                                    Err(oe) => {
+                                        violation = Some(Violation::new("failed-delete-inconsistent", format!("after delete_keyspace({name:?}) failed with {e} the name still exists but cannot be opened: {oe:?}")));
+                                        break;
+                                    }
+                                }
+                            } else {
+                                // it took effect after all: the model follows
+                                stats.inc("failed_delete_took_effect_in_session");
+                                inst.drop_ks_handle(*ks as usize);
+                                ex.model.ks.remove(ks);
+                            }
+                        } else {
+                            violation = Some(Violation::new(
+                                "failed-delete-inconsistent",
+                                format!("op #{i} {op:?} fails with {e} after delete_keyspace had reported an I/O error (a failed deletion must not affect other operations)"),
+                            ));
+                            break;
+                        }
+                    }
+                }
+            }
+        }
+    }
+    let (seen, fired) = {
+        let m = mon.lock().unwrap();
+        (m.io.seen, m.io.fired_at_call.is_some())
+    };
+    if fired && !delete_failed && violation.is_none() {
+        // fjall absorbed the error (e.g. in the meta keyspace's best-effort maintenance): fine
+        stats.inc("delete_fault_absorbed");
+    }
+    let final_state = ex.model.clone();
+    mon.lock().unwrap().enabled = false;
+    ex.close();
+    faults::uninstall();
+    if violation.is_none() {
+        match std::panic::catch_unwind(std::panic::AssertUnwindSafe(|| faults::read_dir_state(&live, &case.cfg))) {
+            Ok(Ok(mut real)) => {
+                stats.inc("reopen_after_fault_checked");
+                let mut want = faults::state_maps(&final_state);
+                // the keyspace whose deletion reported an error may turn out deleted after the
+                // restart (the deletion record can be durable although the call failed); whatever
+                // is there must have exactly the content it had before the close
+                if let Some(v) = victim {
+                    if want.contains_key(&v) && !real.contains_key(&v) {
+                        stats.inc("failed_delete_took_effect_after_reopen");
+                        want.remove(&v);
+                    }
+                }
+                real.retain(|_, _| true);
+                if real != want {
+                    violation = Some(Violation::new(
+                        "failed-delete-inconsistent",
+                        format!("after the run (delete_keyspace failed: {delete_failed}) reopening shows {} but the state before the close was {}", faults::brief_maps(&real), final_state.brief()),
+                    ));
+                }
+            }
+            Ok(Err(e)) => violation = Some(Violation::new("failed-delete-inconsistent", format!("reopening fails: {e}"))),
+            Err(_) => violation = Some(Violation::new("failed-delete-inconsistent", "reopening panics".to_string())),
+        }
+    }
+    let hash = crate::rng::mix(final_state.digest() ^ u64::from(seen) ^ u64::from(delete_failed));
+    IoRun { violation, stats, seen, fired, hash }
+}
+
+pub fn run_delete_fault(case: &Case, dir: PathBuf) -> Outcome {
+    crate::hooks::set_mode(crate::hooks::MODE_SEQ);
+    crate::hooks::set_rotation_threshold(case.cfg.rotation_threshold);
+    let Fault::Io { kind, target, n, persistent } = case.fault.clone() else {
+        let mut o = Outcome::ok(Default::default(), 0);
+        o.harness_error = Some("delete-fault case without Io fault".into());
+        return o;
+    };
+    let mut stats = crate::exec::Stats::default();
+    let mut hash = 0u64;
+    let mut evals = 0u64;
+    let mut violation = None;
+    let mut narrowed = None;
+    let mut fired_any = false;
+    let ns: Vec<u32> = match n {
+        Some(k) => vec![k],
+        None => {
+            let base = run_delete_fault_once(case, &dir.join("base"), Fault::Io { kind: kind.clone(), target: target.clone(), n: Some(u32::MAX), persistent });
+            crate::fsutil::remove_tree(&dir.join("base"));
+            hash = base.hash;
+            if let Some(v) = base.violation {
+                let mut o = Outcome::ok(base.stats, hash);
+                o.violation = Some(v);
+                return o;
+            }
+            stats.add("io_matching_calls", u64::from(base.seen));
+            (1..=base.seen.min(40)).collect()
+        }
+    };
+    for k in ns {
+        let f = Fault::Io { kind: kind.clone(), target: target.clone(), n: Some(k), persistent };
+        let sub = dir.join(format!("n{k}"));
+        let r = run_delete_fault_once(case, &sub, f.clone());
+        crate::fsutil::remove_tree(&sub);
+        evals += 1;
+        stats.merge(&r.stats);
+        hash = crate::rng::mix(hash ^ r.hash);
+        fired_any |= r.fired;
+        if let Some(mut v) = r.violation {
+            v.detail = format!("fault at matching call #{k} inside delete_keyspace: {}", v.detail);
+            violation = Some(v);
+            narrowed = Some(f);
+            break;
+        }
+    }
+    let mut o = Outcome::ok(stats, hash);
+    o.violation = violation;
+    o.narrowed = narrowed;
+    o.evals = evals.max(1);
+    o.shape = shape_hash(case);
+    o.nontrivial = fired_any;
+    o
+}
+
 // ------------------------------------------------------------------------------------- C03 / C15
 
 /// Journal-only programs: several commits of different shapes, nothing flushed
